@@ -48,6 +48,13 @@ def garbageN (seed : Nat) (j : Nat) : Int := (seed : Int) - 2 * (j : Int)
 
 def pickOf (draws : List Rat) : Nat → Nat → Nat := floorPick (fun c => draws.getD c 0)
 
+/-- exact unit phases: `φ` counts quarter turns, `exp(iφπ/2) ∈ {1, i, -1, -i}` -/
+def quarterTrig : Trig Int :=
+  ⟨fun q => [1, 0, -1, 0].getD (q % 4).toNat 0, fun q => [0, 1, 0, -1].getD (q % 4).toNat 0⟩
+
+def showIntPairs (o : List (Int × Int)) : String :=
+  join (o.map fun z => toString z.1 ++ "_" ++ toString z.2)
+
 def modeOf (s : String) : Mode := if s == "inplace" then .inplace else .copy
 
 def policyOf (re km : String) : Policy :=
@@ -107,6 +114,11 @@ def answer (toks : List String) : String :=
       match cnsCalls floatTrig (floatPairs re im) ((matOf rats ph).map (·.map ratToFloat)) with
       | some outs => join (outs.map showPairs) ";"
       | none => "raise"
+  | ["cns_exact", re, im, ph] =>
+      match cnsCalls quarterTrig ((ints re).zip (ints im)) (matOf ints ph) with
+      | some outs => join (outs.map showIntPairs) ";"
+      | none => "raise"
+  | ["cnslen", n] => toString (cnsLen ((ints n).headD 0))
   | ["normalize64", ms, ss, d] =>
       match normalizeRows floatNormOps ((rats ms).map ratToFloat) ((rats ss).map ratToFloat)
           ((matOf rats d).map (·.map ratToFloat)) with
